@@ -22,12 +22,30 @@ def H(name, crate, tier="quick", desc="", bounds="", **kw):
 PROPS = {}
 
 PROPS["C06"] = dict(
-    functions=["CongestionControl::handle_nak"],
-    bounds="one step from an arbitrary state",
-    stubs=["alloc::fmt::format -> empty String"],
-    assumptions=[],
-    outside="",
+    functions=["CongestionControl::handle_nak", "CongestionControl::handle_srtla_ack_specific_classic -> congestion::classic::handle_srtla_ack_specific",
+               "CongestionControl::handle_srtla_ack_enhanced -> congestion::enhanced::handle_srtla_ack",
+               "CongestionControl::perform_window_recovery -> congestion::enhanced::perform_window_recovery", "CongestionControl::reset",
+               "SrtlaConnection::{handle_srtla_ack_specific, handle_nak, handle_srtla_ack_global, mark_for_recovery, reset_for_reconnect, new_registering}"],
+    bounds="one step of each mutator from an arbitrary state: window in [1000,60000], in-flight in 0..=i32::MAX, every other "
+           "CongestionControl field over its full type, RTT velocity over all f64 bit patterns (NaN/inf included), clock over all u64 "
+           "(connection-level harness: clock <= 2^48, <= 2 outstanding packets); thorough adds a 3-event symbolic history",
+    stubs=["alloc::fmt::format -> empty String (message text only)"],
+    assumptions=["representation invariant assumed on the pre-state and re-asserted on the post-state: 1000 <= window <= 60000"],
+    outside="'classic mode never applies time-based recovery' is decided by the shell harness c06s (housekeeping) when present; "
+            "histories longer than one step are covered inductively through the asserted invariant",
     harnesses=[
-        H("c06::c06_nak_step", "core", desc="NAK step", bounds="all i32/u64 field values, window in [1000,60000]"),
+        H("c06::c06_nak_step", "core", desc="NAK: -100 floored, never increases, fast recovery entered only at <=2000"),
+        H("c06::c06_ack_classic_step", "core", desc="classic earned ACK: +29 iff in_flight*1000 > window, capped, never decreases"),
+        H("c06::c06_ack_enhanced_step", "core", desc="enhanced earned ACK: same growth; fast recovery left only at >=12000"),
+        H("c06::c06_recovery_step", "core", desc="time-based recovery: never decreases, capped, fast recovery left only at >=12000"),
+        H("c06::c06_conn_events_step", "core", desc="same rules through SrtlaConnection API incl. global +1", bounds="<=2 outstanding packets, unwind 4"),
+        H("c06::c06_resets", "core", desc="initial and post-teardown window 20000"),
+        H("c06::c06_history_3", "core", tier="thorough", desc="3-event symbolic history, trace invariants", bounds="3 events"),
     ],
 )
+
+NOT_APPLICABLE = {
+    "C20": "quantifies over interleavings of tokio tasks contending for an async Mutex and bounded mpsc channels; Kani/CBMC do not model "
+           "concurrency or an async scheduler, tokio's runtime touches thread-locals Kani 0.68 cannot compile, and a hand encoding would "
+           "verify a model of tokio rather than the real code",
+}
